@@ -4,4 +4,4 @@ Extraction Language OCaml.
 Extraction "../ocaml/build/c18_model.ml"
   force_types lookup set remove read apply partial exec crash create_effects create_backup
   get_backups mgr_init restore_backup restore_effects remodel_effects rexec run_remodel
-  uapply dump_fs dump load get_file_key key_path get_backup_path get_task keys_of.
+  uapply exists_ backup_dir mgr_get dump_fs dump load get_file_key key_path get_backup_path get_task keys_of.
